@@ -15,6 +15,8 @@ pub enum Plan {
     Fixed(Vec<u8>),
     /// the previous word of this call again (stuck entropy source)
     Repeat,
+    /// `Repeat`, this many times in a row (very long stalls written compactly)
+    RepeatN(u32),
     /// the RNG reports failure without writing (infallible methods / personalities: it panics instead)
     Err,
     /// the RNG writes a prefix (n/256 of the buffer) of garbage, then reports failure
@@ -99,6 +101,7 @@ pub struct SimRng {
     fresh_bytes_in_call: u64,
     total_in_call: u64,
     unit_bytes: u64,
+    planned_repeats: u64,
     last_word: Vec<u8>,
     pub bytes_delivered: u64,
     delivered_in_call: u64,
@@ -132,6 +135,7 @@ impl SimRng {
             fresh_bytes_in_call: 0,
             total_in_call: 0,
             unit_bytes: 8,
+            planned_repeats: 0,
             last_word: Vec::new(),
             bytes_delivered: 0,
             delivered_in_call: 0,
@@ -188,6 +192,7 @@ impl SimRng {
         self.last_word.clear();
         self.plan.clear();
         self.plan.extend(plan.iter().cloned());
+        self.planned_repeats = plan.iter().map(|p| if let Plan::RepeatN(n) = p { *n as u64 } else { 1 }).sum();
         self.events.len()
     }
 
@@ -214,7 +219,7 @@ impl SimRng {
         self.total_in_call += 1;
         let req = dest.len() as u32;
         // guard against a loop of empty requests: far beyond what any byte-bounded call can make
-        if self.total_in_call > FRESH_BUDGET as u64 * (self.unit_bytes + 8) + 4096 {
+        if self.total_in_call > FRESH_BUDGET as u64 * (self.unit_bytes + 8) + 4096 + self.planned_repeats {
             std::panic::panic_any(BudgetExceeded);
         }
         if let Some((buf, pos)) = &mut self.stream {
@@ -234,6 +239,12 @@ impl SimRng {
             return Ok(());
         }
         let mut p = self.plan.pop_front().unwrap_or(Plan::Fresh);
+        if let Plan::RepeatN(n) = p {
+            if n > 1 {
+                self.plan.push_front(Plan::RepeatN(n - 1));
+            }
+            p = Plan::Repeat;
+        }
         while let Plan::FaultAtByte(n, inner) = p {
             // several entries with the same count make a burst: a failed request delivers nothing, so the next
             // request crosses the same count again
@@ -290,7 +301,7 @@ impl SimRng {
                 (if fallible { Resp::PartialErr(dest[..n].to_vec()) } else { Resp::Panic }, Src::Fault)
             }
             Plan::Panic => (Resp::Panic, Src::Fault),
-            Plan::FaultAtByte(..) => unreachable!(),
+            Plan::FaultAtByte(..) | Plan::RepeatN(_) => unreachable!(),
         };
         let out = match &resp {
             Resp::Ok(b) => {
